@@ -20,6 +20,11 @@ ASSUMPTIONS = [
     "refinement: tolerance tol_C01(dt)+tol_C01(dt/m) with the 16*eps/(w dt)^3 rounding term (C02 fixes no tolerance of its own), "
     "restricted to T/(dt/m) <= 2e4",
     "a zero period is only meaningful in first position (the code recognises T=0 there only)",
+    "object-spectra: AccSignal.gen_response_spectrum refines the record by an integer factor of at most ceil(min_dt_ratio) (default 4) "
+    "and appends less than one original step of constant load; the laws asserted on the object are those that survive this: exact "
+    "sign / power-of-two scaling, |alpha| scaling, permutation of the list (same shortest period, hence the same refinement), and "
+    "'not below the array function on the raw record' (refinement law); a general sub-list may be refined differently and is "
+    "compared at the array level only; T/dt <= 2500 keeps T/(dt/8) <= 2e4",
 ]
 EPS = np.finfo(float).eps
 MAX_N = 600 if core.tier() == "quick" else 1500
@@ -304,7 +309,8 @@ def _refine_cases(draw):
 @clause(CLAUSES, "refine", _refine_cases(), quick=400, thorough=2000,
         rule="records refined by m in 2..8 with linearly interpolated samples, dt/m, T/(dt/m) <= 2e4; non-trivial = non-zero record",
         oracle="metamorphic: response at the original instants unchanged within tol_C01(dt)+tol_C01(dt/m) on the robust scale "
-               "(+ input-rounding bound); S_d(refined) >= S_d(raw) - tol*scale")
+               "(+ input-rounding bound); every output (S_d, S_v, S_a) of pseudo_response_spectra and true_response_spectra for the refined "
+               "record >= the raw one - the same allowance (S_a where T >= 6.001 dt: no peak-ground-acceleration substitution)")
 def refine(case, ctx):
     a = gen.build(case["a"])
     n = len(a)
@@ -330,10 +336,127 @@ def refine(case, ctx):
     ctx.shape(u2, (len(T), n), "refined displacement at original instants")
     ctx.close(u2, np.asarray(r1[0])[s:], (tol * su + bu)[:, None] + 0 * u2, "displacement at original instants after refinement x%d" % m)
     ctx.close(v2, np.asarray(r1[1])[s:], (tol * sv + bv)[:, None] + 0 * v2, "velocity at original instants after refinement x%d" % m)
-    sd1 = np.asarray(ctx.lib(sdof.pseudo_response_spectra, a, dt, P, xi)[0])
-    sd2 = np.asarray(ctx.lib(sdof.pseudo_response_spectra, fine, dt / m, P, xi)[0])
-    ctx.check(bool(np.all(sd2[s:] >= sd1[s:] - (tol * su + bu) - core.TINY)),
-              "S_d decreased under refinement x%d: %r -> %r" % (m, sd1.tolist(), sd2.tolist()))
+    _spectra_never_decrease(ctx, a, dt, fine, dt / m, P, T, s, xi, tol, (su, sv, sa), (bu, bv, ba), "refinement x%d" % m)
+
+
+def _spectra_never_decrease(ctx, a, dt, fine, dt_fine, P, T, s, xi, tol, scales, pert, what):
+    """Every output of both spectra functions for the refined record is >= the one for the raw record, less the allowance of the
+    series comparison (the refined response contains the original instants).  S_a is compared where neither call substitutes the
+    peak ground acceleration (T >= 6.001 dt; the refined call then has T >= 6 dt_fine a fortiori)."""
+    su, sv, sa = scales
+    bu, bv, ba = pert
+    w = 2 * np.pi / T
+    du = tol * su + bu
+    allow = {"pseudo_response_spectra": (du, w * du, w ** 2 * du),
+             "true_response_spectra": (du, tol * sv + bv, tol * sa + ba)}
+    keep_a = (T / dt) >= 6.001
+    for fname, f in (("pseudo_response_spectra", sdof.pseudo_response_spectra), ("true_response_spectra", sdof.true_response_spectra)):
+        raw = ctx.lib(f, a, dt, P, xi)
+        fin = ctx.lib(f, fine, dt_fine, P, xi)
+        for j, name in enumerate(("S_d", "S_v", "S_a")):
+            r = np.asarray(raw[j], dtype=float)[s:]
+            g = np.asarray(fin[j], dtype=float)[s:]
+            ctx.shape(g, (len(T),), "%s %s of the refined record" % (fname, name))
+            rows = keep_a if j == 2 else np.ones(len(T), dtype=bool)
+            ok = g[rows] >= r[rows] - allow[fname][j][rows] - core.TINY
+            ctx.check(bool(np.all(ok)), "%s %s decreased under %s: %r -> %r (allowance %r)" % (
+                fname, name, what, r[rows].tolist()[:6], g[rows].tolist()[:6], allow[fname][j][rows].tolist()[:6]))
+
+
+# ---------------------------------------------------------------------------
+# the spectra laws on the object-level entry point (AccSignal.gen_response_spectrum / .s_d / .s_v / .s_a)
+
+
+@st.composite
+def _object_cases(draw):
+    c = draw(_base(hi=2e4 / 8, max_p=5))
+    c["a"] = draw(gen.record_specs(min_n=2, max_n=MAX_N))
+    c["alpha"] = draw(gen.scalars())
+    c["k"] = draw(st.integers(-20, 20))
+    c["ratio"] = draw(st.sampled_from([None, 1, 2, 4, 8, 3.5]))   # None: the default min_dt_ratio (4)
+    c["perm"] = draw(st.permutations(list(range(len(c["ratios"])))))
+    c["lazy"] = draw(st.booleans())
+    return c
+
+
+def _object_spectra(ctx, a, dt, P, xi, ratio, lazy=False):
+    """(s_d, s_v, s_a) of an AccSignal: gen_response_spectrum(...) then the three properties; lazy: periods given to the
+    constructor and the properties read straight away (then xi and min_dt_ratio are the defaults 0.05 and 4)."""
+    import eqsig
+    if lazy:
+        asig = ctx.lib(eqsig.AccSignal, a, dt, response_times=P)
+    else:
+        asig = ctx.lib(eqsig.AccSignal, a, dt)
+        kw = {"response_times": P, "xi": xi}
+        if ratio is not None:
+            kw["min_dt_ratio"] = ratio
+        ctx.lib(asig.gen_response_spectrum, **kw)
+    out = [np.asarray(ctx.lib(lambda: asig.s_d)), np.asarray(ctx.lib(lambda: asig.s_v)), np.asarray(ctx.lib(lambda: asig.s_a))]
+    for x, name in zip(out, ("s_d", "s_v", "s_a")):
+        ctx.shape(x, (len(P),), "AccSignal." + name)
+    return out
+
+
+@clause(CLAUSES, "object-spectra", _object_cases(), quick=250, thorough=1200,
+        rule="single records; AccSignal(a, dt).gen_response_spectrum(response_times, xi, min_dt_ratio in {default, 1, 2, 3.5, 4, 8}) then "
+             ".s_d / .s_v / .s_a, or (lazy) periods given to the constructor and the properties read directly; T/dt <= 2500 so that the "
+             "internally refined step stays in the domain; non-trivial = non-zero record",
+        oracle="metamorphic on all three object spectra: (-a) exactly equal, (2^k a) exactly 2^k times, (alpha a) |alpha| times to 1e-10 of "
+               "the robust scale; a permuted period list gives the permuted rows; refinement law: the object's spectra (it refines the "
+               "record by an integer factor <= ceil(min_dt_ratio)) are >= pseudo_response_spectra of the raw record less "
+               "tol_C01(dt)+tol_C01(dt/ceil(min_dt_ratio)) on the robust scale (S_a where T >= 6.001 dt)")
+def object_spectra(case, ctx):
+    a = gen.build(case["a"])
+    n = len(a)
+    dt, al, k, ratio = case["dt"], case["alpha"], case["k"], case["ratio"]
+    lazy = case["lazy"]
+    xi = 0.05 if lazy else case["xi"]
+    _cls(ctx, case, n)
+    ctx.cls("lazy" if lazy else "ratio=%s" % ratio)
+    ctx.nt(bool(np.any(a)))
+    P = _periods(case)
+    T = _T(case)
+    s = 1 if case["lead0"] else 0
+    base = _object_spectra(ctx, a, dt, P, xi, ratio, lazy)
+    neg = _object_spectra(ctx, -a, dt, P, xi, ratio, lazy)
+    p2 = _object_spectra(ctx, a * 2.0 ** k, dt, P, xi, ratio, lazy)
+    gen_ = _object_spectra(ctx, a * al, dt, P, xi, ratio, lazy)
+    ru, rv, _ = sdof.response_series(a, dt, P, xi)
+    su, sv, sa = ref.lib_scales(a, dt, T, xi, ru[s:], rv[s:])
+    w = 2 * np.pi / T
+    amax = float(np.max(np.abs(a)))
+    m_max = int(np.ceil(4 if (ratio is None or lazy) else ratio))
+    # rounding of the scaled / interpolated samples: dt_i * sum|e_i| <= dt * 4 eps (sum|a| + |a_last|) (x2: np.interp's own rounding)
+    err_in = 8 * EPS * float(np.sum(np.abs(a)) + abs(a[-1]))
+    bu, bv, ba = ref.perturbation_bounds(err_in, dt, n + 1, T, xi)
+    scales = (su, w * su, w ** 2 * su + amax)
+    extra = (bu, w * bu, w ** 2 * bu)
+    for j, name in enumerate(("s_d", "s_v", "s_a")):
+        ctx.equal(neg[j], base[j], "AccSignal.%s of -a vs a" % name)
+        ctx.equal(p2[j], base[j] * 2.0 ** k, "AccSignal.%s of 2^%d*a" % (name, k))
+        tol = abs(al) * (1e-10 * scales[j] + extra[j] + 4 * EPS * amax)
+        ctx.close(gen_[j][s:], abs(al) * base[j][s:], tol, "AccSignal.%s of alpha*a vs |alpha|*" % name)
+    perm = list(case["perm"])
+    if len(perm) > 1:
+        Pp = np.concatenate([[0.0], T[perm]]) if s else T[perm]
+        pr = _object_spectra(ctx, a, dt, Pp, xi, ratio, lazy)
+        for j, name in enumerate(("s_d", "s_v", "s_a")):
+            ctx.close(pr[j][s:], base[j][s:][perm], 1e-10 * scales[j][perm] + core.TINY, "AccSignal.%s rows of the permuted period list" % name)
+            if s:
+                ctx.equal(pr[j][0], base[j][0], "AccSignal.%s of the T=0 entry, permuted list" % name)
+    # refinement law against the array function on the raw record
+    raw = ctx.lib(sdof.pseudo_response_spectra, a, dt, P, xi)
+    dur = n * dt
+    tol_r = ref.tol_c01(dur, T, dt, relaxed=True) + ref.tol_c01(dur, T, dt / m_max, relaxed=True)
+    du = tol_r * su + bu
+    keep_a = (T / dt) >= 6.001
+    for j, (name, allow) in enumerate((("s_d", du), ("s_v", w * du), ("s_a", w ** 2 * du))):
+        rows = keep_a if j == 2 else np.ones(len(T), dtype=bool)
+        r = np.asarray(raw[j], dtype=float)[s:][rows]
+        g = base[j][s:][rows]
+        ctx.check(bool(np.all(g >= r - allow[rows] - core.TINY)),
+                  "AccSignal.%s (min_dt_ratio=%s) is below pseudo_response_spectra of the raw record: %r vs %r (allowance %r)" % (
+                      name, "default" if (ratio is None or lazy) else ratio, g.tolist()[:6], r.tolist()[:6], allow[rows].tolist()[:6]))
 
 
 # ---------------------------------------------------------------------------
@@ -352,7 +475,8 @@ def _many_cases(draw):
 @clause(CLAUSES, "many-periods", _many_cases(), quick=40, thorough=120,
         rule="1001-1600 log-spaced periods (more than NumPy's summarisation threshold), short records; the same list with two interior "
              "periods swapped, called in the same process; non-trivial = the two swapped periods differ and the record is non-zero",
-        oracle="metamorphic: every period's series rows and spectra equal those of the unswapped call (1e-10 of the robust scale)",
+        oracle="metamorphic: every period's series rows and pseudo / true spectra (all outputs) equal those of the unswapped call "
+               "(1e-10 of the robust scale)",
         min_nontrivial=0.5)
 def many_periods(case, ctx):
     a = gen.build(case["a"])
@@ -382,6 +506,10 @@ def many_periods(case, ctx):
     amax = float(np.max(np.abs(a)))
     for k, (name, sc) in enumerate((("S_d", su), ("S_v", w * su), ("S_a", w ** 2 * su + amax))):
         ctx.close(np.asarray(p2[k])[s:], np.asarray(p1[k])[s:][idx], 1e-10 * sc[idx], "pseudo %s after swapping two periods" % name)
+    t1 = ctx.lib(sdof.true_response_spectra, a, dt, P1, xi)
+    t2 = ctx.lib(sdof.true_response_spectra, a, dt, P2, xi)
+    for k, (name, sc) in enumerate((("S_d", su), ("S_v", sv), ("S_a", sa + amax))):
+        ctx.close(np.asarray(t2[k])[s:], np.asarray(t1[k])[s:][idx], 1e-10 * sc[idx], "true %s after swapping two periods" % name)
 
 
 # ---------------------------------------------------------------------------
@@ -429,7 +557,7 @@ from pbt.ref import sdof_mid as mid  # noqa: E402
 
 ASSUMPTIONS.extend([
     "mid-range enumerations: records of up to 1.2e5 (thorough 6e5) samples, 1..3000 (6000) periods, periods x samples up to 3e7 "
-    "(6e7); noise x envelope / noise + mean / sines + noise records (non-zero mean, no silent stretch), 60 % of them ending in a "
+    "(4e7); noise x envelope / noise + mean / sines + noise records (non-zero mean, no silent stretch), 60 % of them ending in a "
     "burst (last 3-60 samples x 25) so that peaks sit at the very end of the record; long period lists are "
     "distinct, unsorted, log-spread over a hash-chosen sub-range of [0.2, 2e4] dt",
     "rounding model at length n: (1e-10 + 16*eps*n) of the energy-consistent robust scale S_u = max(s_u, s_v/w), S_v = max(s_v, w*s_u) "
@@ -520,6 +648,7 @@ def _check_spectra_vs_series(ctx, a, dt, P, T, s, xi, series, scales, tol, what,
     Su, Sv, Sa = scales
     mu, mv, ma = _rowmax(series[0]), _rowmax(series[1]), _rowmax(series[2])
     amax = float(np.max(np.abs(a)))
+    ps = ts = None
     if "pseudo" in fns:
         ps = ctx.lib(sdof.pseudo_response_spectra, a, dt, P, xi)
         ctx.check(isinstance(ps, (tuple, list)) and len(ps) == 3, "%s: pseudo_response_spectra does not return a triple" % what)
@@ -540,6 +669,23 @@ def _check_spectra_vs_series(ctx, a, dt, P, T, s, xi, series, scales, tol, what,
             ctx.close(np.asarray(ts[2])[s:][keep], ma[s:][keep], tol * (Sa[keep] + amax), "%s: true S_a vs row-wise max of the third series" % what)
         if s:
             ctx.check(np.asarray(ts[0])[0] == 0 and np.asarray(ts[1])[0] == 0, "%s: true S_d / S_v of the T=0 entry are not 0" % what)
+    return ps, ts
+
+
+def _check_sub_spectra(ctx, a, dt, Psub, idx, T, s, xi, whole, scales, tol, what, which):
+    """Batch law on the spectra themselves: all three outputs of a spectra function for a sub-list equal the whole-list entries."""
+    Su, Sv, Sa = scales
+    w = 2 * np.pi / T
+    amax = float(np.max(np.abs(a)))
+    if which == "pseudo":
+        f, sc = sdof.pseudo_response_spectra, (Su, w * Su, w ** 2 * Su + amax)
+    else:
+        f, sc = sdof.true_response_spectra, (Su, Sv, Sa + amax)
+    sub = ctx.lib(f, a, dt, Psub, xi)
+    for j, name in enumerate(("S_d", "S_v", "S_a")):
+        ctx.close(np.asarray(sub[j])[s:], np.asarray(whole[j])[s:][idx], tol * sc[j][idx], "%s: %s %s of the sub-list vs the whole-list entries" % (what, which, name))
+        if s:
+            ctx.equal(np.asarray(sub[j])[0], np.asarray(whole[j])[0], "%s: %s %s of the T=0 entry, sub-list call" % (what, which, name))
 
 
 def _check_shift_causal_linear(ctx, a, dt, P, T, s, xi, R1, scales, hs, what):
@@ -584,7 +730,7 @@ def _c02_cfg(tier):
                     prod=(1e5, 3e7, 10, "c02-prod"), prod_p=(8, 3000), prod_n=(400, 100000), sub_budget=1.0e5)
     return dict(n=(2000, 600000, 22, "c02-n-th"), n_mined=(2000, 200000, 10),
                 p=(7, 6000, 24, "c02-p-th", 16), pn=(100, 2000),
-                prod=(1e5, 6e7, 22, "c02-prod-th"), prod_p=(8, 6000), prod_n=(400, 300000), sub_budget=4e5)
+                prod=(1e5, 4e7, 20, "c02-prod-th"), prod_p=(8, 6000), prod_n=(400, 300000), sub_budget=4e5)
 
 
 def _sharded(cases, shard, nshards, cost):
@@ -594,7 +740,7 @@ def _sharded(cases, shard, nshards, cost):
             yield c
 
 
-REL_COST = {"shift-causal-linear": 3.0, "batch-spectra": 4.0, "refine": 1.5}
+REL_COST = {"shift-causal-linear": 3.0, "batch-spectra": 5.0, "refine": 1.5}
 
 
 def _mk_n_case(n, rel, idx):
@@ -625,7 +771,7 @@ def _c02_n_enum(tier, shard, nshards):
              rule="record-length ladder: one length per logarithmic bin of [2000, 1.2e5] (10 bins; thorough [2000, 6e5], 22 bins) placed by a "
                   "hash of VERIF_SEED, and lengths next to integer literals of the source under test; at every length "
                   "three cases: (shift + causality + linearity: k <= 997 zeros prepended and later samples appended; alpha*a + beta*(a delayed)), "
-                  "(batch + spectra: a permuted proper sub-list of the 2-6 periods; pseudo / true spectra against the series), "
+                  "(batch + spectra: a permuted proper sub-list of the 2-6 periods, series rows and all outputs of one spectra function; pseudo / true spectra of the whole list against the series), "
                   "(refinement x2..8 whose refined record has the ladder length); optional leading 0; non-trivial = non-zero record",
              oracle="metamorphic on the whole output: shift / causality array_equal; linearity, batch and spectra-vs-series to "
                     "(1e-10 + 16 eps n) of the energy-consistent robust scale (+ input-rounding bound); refinement to tol_C01(dt)+tol_C01(dt/m)",
@@ -670,10 +816,14 @@ def mid_range(case, ctx):
     # batch + spectra
     what = "%d samples, %d periods" % (n, len(T))
     tol = _tol_n(n)
-    _check_spectra_vs_series(ctx, a, dt, P, T, s, xi, R1, scales, tol, what)
+    ps, ts = _check_spectra_vs_series(ctx, a, dt, P, T, s, xi, R1, scales, tol, what)
     p = len(T)
     rs = np.random.RandomState(case["seed"] % (2 ** 31 - 1))
     idx = rs.permutation(p)[:mid.hint(1, p - 1, "nsub", case["seed"])]
+    which = "pseudo" if mid.hu("subspec", case["seed"]) < 0.5 else "true"
+    ctx.cls("sub-spectra=" + which)
+    _check_sub_spectra(ctx, a, dt, _mk_periods(T[idx], s, case["container"]), idx, T, s, xi, ps if which == "pseudo" else ts,
+                       scales, tol, "%s, sub-list %s" % (what, idx.tolist()), which)
     Rs = ctx.lib(sdof.response_series, a, dt, _mk_periods(T[idx], s, case["container"]), xi)
     for j, (name, S) in enumerate(zip(("displacement", "velocity", "acceleration"), scales)):
         _close_rows(ctx, np.asarray(Rs[j])[s:], np.asarray(R1[j])[s:][idx], tol * S[idx], "%s: %s rows of the sub-list %s" % (what, name, idx.tolist()))
@@ -748,13 +898,12 @@ def _wide_check(case, ctx, cfg, extras):
     R1 = [np.asarray(x) for x in R1]
     scales = _escales(a, dt, T, xi, R1[0][s:], R1[1][s:])
     tol = _tol_n(n)
-    _check_spectra_vs_series(ctx, a, dt, P, T, s, xi, R1, scales, tol, what)
+    ps_all, ts_all = _check_spectra_vs_series(ctx, a, dt, P, T, s, xi, R1, scales, tol, what)
     # batch: sub-lists against the whole list
     ncalls = max(2, int(cfg["sub_budget"] // n))
     groups, full = _groups(npd, ncalls, case["seed"])
     ctx.cls("batch=all-rows" if full else "batch=seam-rows")
     n_spec = 2 if n <= 5000 else 1
-    mu, mv = _rowmax(R1[0]), _rowmax(R1[1])
     for gi, idx in enumerate(reversed(groups)):   # the single-period call first
         Rs = ctx.lib(sdof.response_series, a, dt, mk(idx), xi)
         w8 = "%s: sub-list of %d periods (rows %s%s)" % (what, len(idx), idx[:5].tolist(), "..." if len(idx) > 5 else "")
@@ -763,11 +912,8 @@ def _wide_check(case, ctx, cfg, extras):
             if s:
                 _equal_rows(ctx, np.asarray(Rs[j])[:1], R1[j][:1], "%s: T=0 row of %s" % (w8, name))
         if gi < n_spec:
-            ps = ctx.lib(sdof.pseudo_response_spectra, a, dt, mk(idx), xi)
-            ts = ctx.lib(sdof.true_response_spectra, a, dt, mk(idx), xi)
-            ctx.close(np.asarray(ps[0])[s:], mu[s:][idx], tol * scales[0][idx], "%s: pseudo S_d vs max|u| of the whole-list rows" % w8)
-            ctx.close(np.asarray(ts[0])[s:], mu[s:][idx], tol * scales[0][idx], "%s: true S_d vs max|u| of the whole-list rows" % w8)
-            ctx.close(np.asarray(ts[1])[s:], mv[s:][idx], tol * scales[1][idx], "%s: true S_v vs max|v| of the whole-list rows" % w8)
+            _check_sub_spectra(ctx, a, dt, mk(idx), idx, T, s, xi, ps_all, scales, tol, w8, "pseudo")
+            _check_sub_spectra(ctx, a, dt, mk(idx), idx, T, s, xi, ts_all, scales, tol, w8, "true")
     if extras:
         rs = np.random.RandomState((case["seed"] + 5) % (2 ** 31 - 1))
         perm = rs.permutation(npd)
@@ -811,7 +957,7 @@ def _c02_prod_enum(tier, shard, nshards):
 
 
 @enum_clause(CLAUSES, "mid-range-products", _c02_prod_enum,
-             rule="(periods x samples) ladder: one product per logarithmic bin of [1e5, 3e7] (10 bins; thorough [1e5, 6e7], 22 bins) and products "
+             rule="(periods x samples) ladder: one product per logarithmic bin of [1e5, 3e7] (10 bins; thorough [1e5, 4e7], 20 bins) and products "
                   "just above integer literals of the source under test, split by hash into 8..3000 (6000) periods x 400..100 000 (300 000) "
                   "samples; leading 0 in half of the cases; the whole list (series, pseudo and true spectra) against sub-lists of <= 48 periods: "
                   "every row when about 1e5 (4e5) loop steps pay for it, otherwise the seam rows (first, last, around multiples of 2^5..2^12) "
